@@ -1,16 +1,320 @@
-import OnlVerif.Net.VCOnK
-import Mathlib.Algebra.Order.Field.Rat
+import OnlVerif.Lemmas.VCKFinal
+import OnlVerif.Lemmas.VCKGridEx
+import OnlVerif.Props.C12
+import OnlVerif.Props.C14
 /-!
 # C12/C14 on the kernel: the stamp schedulers *as processes on the kernel model* refine the StampServer LTS
 
 `OnlVerif/Net/VCOnK.lean` writes `VC.put`, `Scheduler.send_packet` (a child process per transmission, joined with
 `yield process`), `VC.run` and a packet source as one program of the kernel model `K` (`OnlVerif/Kernel`).  Nothing is
 assumed about scheduling: `Environment.step` of the kernel model decides what runs when (the `StorePut` / `StoreGet` events of
-the `PriorityStore`, the `Initialize` and `Process` events of the sender, the timeouts of the source and of the sender).
+the `PriorityStore`, the `Initialize` and `Process` events of the sender, the timeouts of the source and of the sender).  The
+theorems close the gap DESIGN §2.3 names for this device: every kernel step of this program is a (possibly empty) sequence of
+actions the StampServer LTS with the VC record (`OnlVerif/Net/StampServer.lean`, `Net/Sched/VC.lean`) *accepts*, so the
+admissibility rules of the LTS (a triggered event is processed before the clock moves, a transmission ends exactly at its due
+instant, a hand-off happens before the clock moves) are consequences of the kernel model, and the C12/C14 theorems hold of
+kernel runs.
+
+Scope: one `VC` over the classes `0 … F-1` (`F` arbitrary), each with a positive vtick (`VCK.CfgOK`), `flow2class` the
+identity, an `out` attached, `rate > 0`; one source process with non-negative gaps (zero gaps = bursts, and arrivals exactly at
+transmission ends, included) whose packets carry increasing ids in `0 … N-1` and belong to configured classes (`VCK.WorkOK`);
+exact rational time; `fuel + 1` = any positive bound of the `_resume` loop.  **The `PriorityStore` key.**  The kernel model's
+`PriorityStore` orders plain integers; the program carries the key `(stamp, now)` of a `PriorityItem` as the integer
+`⌊scale·stamp⌋·N + id` (`Kernel/StampCode.lean`, header of `Net/VCOnK.lean`).  The floor preserves the order of the stamps
+when vticks and gaps lie on the grid `ℤ/scale` (`VCK.GridOK`; `Lemmas/StampCodeQ.lean`) — which every configuration and every
+finite workload of rationals does for `scale := VCK.scaleOf cfg arrivals` (`grid_exists` below), so this is a hypothesis about
+the *parameter* `scale` of the encoding, not about the workload.  That every stamp the program computes stays on the grid is
+part of the proved invariant.
 -/
 
 namespace C14K
-open VCOnK
+open VCOnK VCK Stamp
+
+
+/-- **Every configuration and every finite rational workload lies on a grid**: the hypothesis `GridOK` of the theorems below
+is met by the scale `VCK.scaleOf cfg arrivals` (the product of the denominators of the vticks and of the gaps). -/
+theorem grid_exists (cfg : VcCfg ℚ) (arrivals : List (ℚ × Int)) : GridOK (scaleOf cfg arrivals) cfg arrivals :=
+  gridOK_scaleOf cfg arrivals
+
+/-- **Refinement, step by step**: let `s` be reachable by kernel steps from the initial state and let the next kernel step
+end in `s'`.  Then that step is a normal one (`.ok`: no exception, no stop), and there is a (possibly empty) sequence of LTS
+actions that the StampServer LTS with the VC record *accepts* from the abstraction of `s`, that ends exactly in the
+abstraction of `s'` (the step commutes with the executable abstraction function `absVC`), and in which the packets accepted /
+sent out are exactly the `put` / `out` observations the kernel step appended to the trace. -/
+theorem vc_on_kernel_step_refines (N scale F : Nat) (flow size : Int → Nat) (cfg : VcCfg ℚ) (arrivals : List (ℚ × Int))
+    (hc : CfgOK F cfg) (hg : GridOK scale cfg arrivals) (hw : WorkOK N scale F flow arrivals) (fuel : Nat)
+    (s s' : KState ℚ (VcKSt ℚ))
+    (hreach : KReach (prog flow size cfg N scale) (fuel + 1) (initState F cfg arrivals) s)
+    (hstep : (step (prog flow size cfg N scale) (fuel + 1) s).state? = some s') :
+    step (prog flow size cfg N scale) (fuel + 1) s = .ok s' ∧
+    ∃ new acts, histOf s'.trace = histOf s.trace ++ new ∧
+      runActs (VC.sched cfg) (absVC flow size cfg N s) acts =
+        .ok (absVC flow size cfg N s', putPk flow size new, outPk flow size new) := by
+  obtain ⟨a, _, hi, _⟩ := reach_lts (size := size) fuel hc hg hw hreach
+  cases hp : popMin s.agenda with
+  | none => simp [_root_.step, hp, StepResult.state?] at hstep
+  | some qr =>
+    obtain ⟨q, rest⟩ := qr
+    obtain ⟨s'', a', new, h1, h2, -, -, -, h6, acts, h7⟩ := inv_step_lts (size := size) fuel hi hp
+    rw [h1] at hstep
+    simp only [StepResult.state?, Option.some.injEq] at hstep
+    subst hstep
+    exact ⟨h1, new, acts, h6, by rw [absVC_eq hi.k hi.ai hi.l, absVC_eq h2.k h2.ai h2.l]; exact h7⟩
+
+/-- **Refinement, whole runs**: every state reachable by kernel steps is the image under `absVC` of an *admissible* run of
+the LTS from the state of a fresh `VC` (`VC.start cfg 0`): the LTS accepts some action sequence that ends in `absVC s` and in
+which the packets accepted are the `put` observations and the packets sent out the `out` observations of the kernel trace, in
+order — the hypothesis of the C12 / C14 theorems. -/
+theorem vc_on_kernel_refines_lts (N scale F : Nat) (flow size : Int → Nat) (cfg : VcCfg ℚ) (arrivals : List (ℚ × Int))
+    (hc : CfgOK F cfg) (hg : GridOK scale cfg arrivals) (hw : WorkOK N scale F flow arrivals) (fuel : Nat)
+    (s : KState ℚ (VcKSt ℚ))
+    (hreach : KReach (prog flow size cfg N scale) (fuel + 1) (initState F cfg arrivals) s) :
+    ∃ acts, runActs (VC.sched cfg) (VC.start cfg 0) acts =
+      .ok (absVC flow size cfg N s, putPk flow size (histOf s.trace), outPk flow size (histOf s.trace)) := by
+  obtain ⟨a, acts, hi, hrun⟩ := reach_lts (size := size) fuel hc hg hw hreach
+  exact ⟨acts, by rw [absVC_eq hi.k hi.ai hi.l]; exact hrun⟩
+
+/-- **No kernel step ever crashes, and `run()` returns**: for every workload as above, every state reachable by kernel steps
+is followed by a normal step or has an empty agenda — so none of the exceptions the program can raise (`KeyError` for an
+unconfigured class, `TypeError` for a reply or an item it cannot use, a negative delay) and no exception of the kernel ever
+leaves `step()` —, and `run()` of the kernel model returns (agenda empty) within `6·n + 4` kernel steps, `n` = the number of
+packets. -/
+theorem vc_on_kernel_run_returns (N scale F : Nat) (flow size : Int → Nat) (cfg : VcCfg ℚ) (arrivals : List (ℚ × Int))
+    (hc : CfgOK F cfg) (hg : GridOK scale cfg arrivals) (hw : WorkOK N scale F flow arrivals) (fuel n : Nat)
+    (hn : 6 * arrivals.length + 4 ≤ n) :
+    (∀ s, KReach (prog flow size cfg N scale) (fuel + 1) (initState F cfg arrivals) s →
+      (∃ s', step (prog flow size cfg N scale) (fuel + 1) s = .ok s') ∨
+        step (prog flow size cfg N scale) (fuel + 1) s = .empty) ∧
+    ∃ sF, runAll (prog flow size cfg N scale) (fuel + 1) n (initState F cfg arrivals) = .returned .none sF ∧
+      sF.agenda = [] ∧ KReach (prog flow size cfg N scale) (fuel + 1) (initState F cfg arrivals) sF := by
+  constructor
+  · intro s hs
+    obtain ⟨a, _, hi, _⟩ := reach_lts (size := size) fuel hc hg hw hs
+    cases hp : popMin s.agenda with
+    | none => right; simp [_root_.step, hp]
+    | some qr =>
+      obtain ⟨q, rest⟩ := qr
+      obtain ⟨s', _, _, h1, _⟩ := inv_step_lts (size := size) fuel hi hp
+      exact Or.inl ⟨s', h1⟩
+  · have h0 := inv_init (N := N) (flow := flow) hc hg hw
+    obtain ⟨sF, aF, h1, -, h3, h4⟩ := run_returns (size := size) fuel (initState F cfg arrivals) n _ _ h0
+      (by rw [a0_mu]; omega) KReach.init
+    exact ⟨sF, h1, h3, h4⟩
+
+/-! ### the C12/C14 theorems for kernel runs (by transfer through the refinement) -/
+
+/-- **Per-flow FIFO and conservation on the kernel** (`C12.stamp_flow_fifo_vc`): at every state reachable by kernel steps
+the waiting items of one flow carry strictly increasing stamps, and the packets of flow `f` handed to `put` so far are, in
+order, those of `f` handed to `out.put` followed by those of `f` still held (handed over, in transmission, waiting). -/
+theorem kernel_flow_fifo (N scale F : Nat) (flow size : Int → Nat) (cfg : VcCfg ℚ) (arrivals : List (ℚ × Int))
+    (hc : CfgOK F cfg) (hg : GridOK scale cfg arrivals) (hw : WorkOK N scale F flow arrivals) (fuel : Nat)
+    (s : KState ℚ (VcKSt ℚ))
+    (hreach : KReach (prog flow size cfg N scale) (fuel + 1) (initState F cfg arrivals) s) (f : Nat) :
+    FlowSorted (absVC flow size cfg N s).items ∧
+    ofFlow f (putPk flow size (histOf s.trace)) =
+      ofFlow f (outPk flow size (histOf s.trace)) ++ ofFlow f (held (absVC flow size cfg N s)) := by
+  obtain ⟨acts, h⟩ := vc_on_kernel_refines_lts N scale F flow size cfg arrivals hc hg hw fuel s hreach
+  exact C12.stamp_flow_fifo_vc cfg (pos_of_cfgOK hc) 0 acts _ _ _ h f
+
+/-- **The counters are exact on the kernel** (`C12.stamp_counters_eq`): `queue_count[f]` and `queue_byte_size[f]`, read from
+the attribute cells of a reachable kernel state, equal the number / bytes of the packets of `f` waiting or in transmission. -/
+theorem kernel_counters_eq (N scale F : Nat) (flow size : Int → Nat) (cfg : VcCfg ℚ) (arrivals : List (ℚ × Int))
+    (hc : CfgOK F cfg) (hg : GridOK scale cfg arrivals) (hw : WorkOK N scale F flow arrivals) (fuel : Nat)
+    (s : KState ℚ (VcKSt ℚ))
+    (hreach : KReach (prog flow size cfg N scale) (fuel + 1) (initState F cfg arrivals) s) (f : Nat) :
+    getD (absVC flow size cfg N s).queueCount f = ((ofFlow f (held (absVC flow size cfg N s))).length : Int) ∧
+    getD (absVC flow size cfg N s).queueBytes f =
+      ((ofFlow f (held (absVC flow size cfg N s))).map fun p => (p.size : Int)).sum := by
+  obtain ⟨acts, h⟩ := vc_on_kernel_refines_lts N scale F flow size cfg arrivals hc hg hw fuel s hreach
+  exact C12.stamp_counters_eq (VC.sched cfg) (VC.init0 cfg) 0 acts _ _ _ h f
+
+/-- **Minimal stamp at every hand-off, on kernel states.**  Let `s` be reachable by kernel steps and let the next kernel
+step be one in which the store hands an item over (the abstraction of the state after it has a handed item `it`, the one
+before has none: the `StorePut` event processed while `run` is blocked, or `run`'s own `store.get()` after a transmission).
+Then, read from the `PriorityStore` resource of the kernel state itself: `K` handed out its least integer `c`, `it` is the
+`PriorityItem` that integer stands for, exactly that integer left the store, and **no item in the store had a smaller
+`(stamp, arrival instant)`** — for every stored integer `x`, `it.stamp < stamp(x)`, or the stamps are equal and `it` did not
+arrive later. -/
+theorem vc_on_kernel_decision (N scale F : Nat) (flow size : Int → Nat) (cfg : VcCfg ℚ) (arrivals : List (ℚ × Int))
+    (hc : CfgOK F cfg) (hg : GridOK scale cfg arrivals) (hw : WorkOK N scale F flow arrivals) (fuel : Nat)
+    (s s' : KState ℚ (VcKSt ℚ))
+    (hreach : KReach (prog flow size cfg N scale) (fuel + 1) (initState F cfg arrivals) s)
+    (hstep : step (prog flow size cfg N scale) (fuel + 1) s = .ok s') (it : Item ℚ)
+    (hpost : (absVC flow size cfg N s').handed = some it) (hpre : (absVC flow size cfg N s).handed = none) :
+    ∃ c, listMin (s.res pst).items = some c ∧ it = itemOf flow size N s.trace c ∧
+      (s'.res pst).items = (s.res pst).items.erase c ∧
+      ∀ x ∈ (s.res pst).items, it.stamp < (itemOf flow size N s.trace x).stamp ∨
+        (it.stamp = (itemOf flow size N s.trace x).stamp ∧ it.arr ≤ (itemOf flow size N s.trace x).arr) := by
+  obtain ⟨a, _, hi, _⟩ := reach_lts (size := size) fuel hc hg hw hreach
+  cases hp : popMin s.agenda with
+  | none => simp [_root_.step, hp] at hstep
+  | some qr =>
+    obtain ⟨q, rest⟩ := qr
+    obtain ⟨s'', a', new, h1, h2, -, h4, -⟩ := inv_step_lts (size := size) fuel hi hp
+    rw [h1] at hstep
+    simp only [StepResult.ok.injEq] at hstep
+    subst hstep
+    rw [absVC_eq h2.k h2.ai h2.l] at hpost
+    rw [absVC_eq hi.k hi.ai hi.l] at hpre
+    have hmin := (isMin_of_pop hi.k hp).1
+    have hia := hi.ai.advance hmin
+    have key : ∀ w, IsLeast N scale a.items w → a'.items = a.items.erase w → it = itemW flow size w →
+        ∃ c, listMin (s.res pst).items = some c ∧ it = itemOf flow size N s.trace c ∧
+          (s''.res pst).items = (s.res pst).items.erase c ∧
+          ∀ x ∈ (s.res pst).items, it.stamp < (itemOf flow size N s.trace x).stamp ∨
+            (it.stamp = (itemOf flow size N s.trace x).stamp ∧ it.arr ≤ (itemOf flow size N s.trace x).arr) := by
+      intro w hw hit hitw
+      have hwp : w ∈ a.puts := hia.sub.subset hw.1
+      have hitem : ∀ x ∈ a.puts, itemOf flow size N s.trace (codeOf N scale x) = itemW flow size x := fun x hx =>
+        itemOf_eq hi.l (nodup_of_mono hia.mono) hx (hia.putOK x hx).2.1 (hia.putOK x hx).2.2.1
+      have hst : (s.res pst).items = a.items.map (codeOf N scale) := by
+        show (s.res 0).items = _; rw [hi.k.st]; rfl
+      have hst' : (s''.res pst).items = a'.items.map (codeOf N scale) := by
+        show (s''.res 0).items = _; rw [h2.k.st]; rfl
+      obtain ⟨pre, post, e1, -, -, hm⟩ := pick_spec _ _ _ _ (pick_least (size := size) hia hw)
+      refine ⟨codeOf N scale w, by rw [hst]; exact listMin_codes hw, by rw [hitw, hitem w hwp], ?_, ?_⟩
+      · rw [hst', hst, hit, erase_codes (AInv.inj hia hw.1)]
+      · intro x hx
+        rw [hst] at hx
+        obtain ⟨y, hy, rfl⟩ := List.mem_map.mp hx
+        rw [hitem y (hia.sub.subset hy), hitw]
+        exact hm.spec (List.mem_map_of_mem hy)
+    cases h4 with
+    | runInit h0 => simp [toM] at hpost
+    | pktResume g w h0 => simp [toM] at hpost
+    | sendInit p id h0 => simp [toM] at hpost
+    | sendFire p t id h0 => simp [toM] at hpost
+    | doneHit p id0 w h0 hw =>
+      simp only [toM, Option.some.injEq] at hpost
+      exact key w hw rfl hpost.symm
+    | doneBlock p id0 h0 hit => simp [toM] at hpost
+    | srcInit arr h0 => simp only [toM] at hpost hpre; rw [hpre] at hpost; cases hpost
+    | srcPut id arr h0 => simp only [toM] at hpost hpre; rw [hpre] at hpost; cases hpost
+    | srcEnd h0 => simp only [toM] at hpost hpre; rw [hpre] at hpost; cases hpost
+    | pendNoop l1 l2 hpe hno => simp only [toM] at hpost hpre; rw [hpre] at hpost; cases hpost
+    | pendHand g w l1 l2 hpe h0 hw =>
+      simp only [toM, Option.some.injEq] at hpost
+      exact key w hw rfl hpost.symm
+
+/-- **Minimal stamp at every hand-off, on the LTS image** (`C14.min_stamp_service` for kernel steps): under the hypotheses of
+`vc_on_kernel_decision` the handed item was in the store of the abstraction of `s`, exactly it is missing from the store of
+the abstraction of `s'`, and every item in the store had a larger stamp, or the same stamp and no earlier arrival instant. -/
+theorem kernel_vc_min_stamp (N scale F : Nat) (flow size : Int → Nat) (cfg : VcCfg ℚ) (arrivals : List (ℚ × Int))
+    (hc : CfgOK F cfg) (hg : GridOK scale cfg arrivals) (hw : WorkOK N scale F flow arrivals) (fuel : Nat)
+    (s s' : KState ℚ (VcKSt ℚ))
+    (hreach : KReach (prog flow size cfg N scale) (fuel + 1) (initState F cfg arrivals) s)
+    (hstep : step (prog flow size cfg N scale) (fuel + 1) s = .ok s') (it : Item ℚ)
+    (hpost : (absVC flow size cfg N s').handed = some it) (hpre : (absVC flow size cfg N s).handed = none) :
+    it ∈ (absVC flow size cfg N s).items ∧
+    (absVC flow size cfg N s').items.length + 1 = (absVC flow size cfg N s).items.length ∧
+    ∀ x ∈ (absVC flow size cfg N s).items, it.stamp < x.stamp ∨ (it.stamp = x.stamp ∧ it.arr ≤ x.arr) := by
+  obtain ⟨c, h1, h2, h3, h4⟩ := vc_on_kernel_decision N scale F flow size cfg arrivals hc hg hw fuel s s' hreach hstep it hpost hpre
+  have hne : (s.res pst).items ≠ [] := by
+    intro h0; rw [h0] at h1; simp [listMin] at h1
+  obtain ⟨m, hm1, hm2, -⟩ := listMin_spec _ hne
+  rw [h1] at hm1
+  cases hm1
+  refine ⟨?_, ?_, ?_⟩
+  · show it ∈ (s.res pst).items.map _
+    rw [h2]; exact List.mem_map_of_mem hm2
+  · show ((s'.res pst).items.map _).length + 1 = ((s.res pst).items.map _).length
+    rw [List.length_map, List.length_map, h3, List.length_erase_of_mem hm2]
+    have : 0 < (s.res pst).items.length := List.length_pos_of_mem hm2
+    omega
+  · intro x hx
+    obtain ⟨y, hy, rfl⟩ := List.mem_map.mp hx
+    exact h4 y hy
+
+/-! ### the direct form: stamp rule, minimal key, exact service times, work conservation, drain -/
+
+/-- **What the oracle accepts** (`VCOnK.ostep` at exact rational time, the two central clauses spelled out).  A `stamp x`
+observation after `put id t` is accepted iff `x = max(t, aux_vc[c]) + vtick[c]` for the class `c` of the packet (`aux_vc` as the
+rule itself prescribes it so far); an `out id t` observation is accepted iff `id` is in transmission since `s` and
+`t = s + 8·size/rate`. -/
+theorem oracle_accepts_iff (flow size : Int → Nat) (cfg : VcCfg ℚ) (o : OSt ℚ) (id : Int) (t x : ℚ) (ho : o.pend = some (id, t)) :
+    ((ostep flow size cfg o (.stamp x)).isSome ↔ ∃ kv ∈ cfg.vticks, kv.1 = flow id ∧ x = max t (o.aux (flow id)) + kv.2) ∧
+    ((ostep flow size cfg o (.out id t)).isSome ↔ ∃ s, o.busy = some (id, s) ∧ t = s + (size id * 8 : ℕ) / cfg.rate) := by
+  constructor
+  · simp only [ostep, ho]
+    have hiff : StampOK flow cfg o id t x ↔ ∃ kv ∈ cfg.vticks, kv.1 = flow id ∧ x = max t (o.aux (flow id)) + kv.2 := by
+      unfold StampOK
+      constructor
+      · rintro ⟨kv, h1, h2, h3⟩
+        refine ⟨kv, h1, h2, ?_⟩
+        have := (eqT_iff _ _).mp h3
+        rw [this]
+        have := VC.auxOf_eq t (o.aux (flow id)) kv.2
+        unfold VC.auxOf at this
+        exact this
+      · rintro ⟨kv, h1, h2, h3⟩
+        refine ⟨kv, h1, h2, (eqT_iff _ _).mpr ?_⟩
+        rw [h3]
+        have := VC.auxOf_eq t (o.aux (flow id)) kv.2
+        unfold VC.auxOf at this
+        exact this.symm
+    by_cases hok : StampOK flow cfg o id t x
+    · simp only [hok, if_true, Option.isSome_some, true_iff]; exact hiff.mp hok
+    · simp only [hok, if_false, Option.isSome_none, Bool.false_eq_true, false_iff]; exact fun h => hok (hiff.mpr h)
+  · have hiff : OutOK size cfg.rate o id t ↔ ∃ s, o.busy = some (id, s) ∧ t = s + (size id * 8 : ℕ) / cfg.rate := by
+      unfold OutOK
+      cases hb : o.busy with
+      | none => simp
+      | some y =>
+        obtain ⟨id', s0⟩ := y
+        simp only [eqT_iff, VCOnK.txTime, Num.ofNat_rat, Option.some.injEq, Prod.mk.injEq]
+        constructor
+        · rintro ⟨rfl, h⟩; exact ⟨s0, ⟨rfl, rfl⟩, h⟩
+        · rintro ⟨s1, ⟨rfl, rfl⟩, h⟩; exact ⟨rfl, h⟩
+    simp only [ostep]
+    by_cases hok : OutOK size cfg.rate o id t
+    · simp only [hok, if_true, Option.isSome_some, true_iff]; exact hiff.mp hok
+    · simp only [hok, if_false, Option.isSome_none, Bool.false_eq_true, false_iff]; exact fun h => hok (hiff.mpr h)
+
+/-- **The history of every kernel run passes the oracle, step by step**: at every state reachable by kernel steps the
+`put` / `stamp` / `get` / `serve` / `out` observations recorded so far are accepted by `VCOnK.orun` from the empty oracle state —
+every arrival so far was stamped `max(now, aux_vc) + vtick`, every hand-off so far took a candidate of minimal
+`(stamp, arrival instant)` that was the oldest of its flow, in the instant of the `get` resp. of the arrival, every `get` was
+issued at instant 0 or in the instant of the last departure, every departure came exactly `8·size/rate` after its service
+start (header of the oracle in `Net/VCOnK.lean`, `oracle_accepts_iff`). -/
+theorem vc_on_kernel_history_accepted (N scale F : Nat) (flow size : Int → Nat) (cfg : VcCfg ℚ) (arrivals : List (ℚ × Int))
+    (hc : CfgOK F cfg) (hg : GridOK scale cfg arrivals) (hw : WorkOK N scale F flow arrivals) (fuel : Nat)
+    (s : KState ℚ (VcKSt ℚ))
+    (hreach : KReach (prog flow size cfg N scale) (fuel + 1) (initState F cfg arrivals) s) :
+    ∃ o, orun flow size cfg oInit (histOf s.trace) = some o := by
+  obtain ⟨a, hi⟩ := reach_inv3 (size := size) fuel hc hg hw hreach
+  obtain ⟨o, ho, -⟩ := hi.o
+  exact ⟨o, ho⟩
+
+/-- **Stamp rule, minimal-key service, exact service times, work conservation and drain for the VirtualClock scheduler as
+kernel processes (direct form, no admissibility assumption).**  For every number of classes `F`, every vtick table with
+positive vticks over them, every `rate > 0` and every finite workload with non-negative gaps (bursts and arrivals exactly at
+transmission ends included), `run()` of the kernel model on the spawned processes
+
+* returns (agenda empty, no exception ever leaves `step()`) within `6·n + 4` kernel steps;
+* has handed exactly the workload to `put`: packet `k` at the sum of the first `k + 1` gaps (`arrivalsFrom`);
+* has a `put` / `stamp` / `get` / `serve` / `out` history that the oracle accepts: **every arrival was stamped
+  `max(now, aux_vc[c]) + vtick[c]`**; the server asked for the next packet at instant 0 and then **in the very instant of each
+  departure** (never idle with a backlog); **every hand-off took a packet with minimal `(stamp, arrival instant)`** among
+  those waiting when the server asked (if none was: the first to arrive), the oldest of its flow, and its service started in
+  the instant of the hand-off; one packet at a time (non-preemptive); every packet left **exactly `8·size/rate`** after its
+  service start;
+* ends drained: nothing waits, nothing is in transmission, and for every flow the packets handed to `out.put` are exactly
+  the packets of that flow handed to `put`, in the same order (every packet leaves once, per flow in arrival order). -/
+theorem vc_on_kernel_stamp_rules (N scale F : Nat) (flow size : Int → Nat) (cfg : VcCfg ℚ) (arrivals : List (ℚ × Int))
+    (hc : CfgOK F cfg) (hg : GridOK scale cfg arrivals) (hw : WorkOK N scale F flow arrivals) (fuel n : Nat)
+    (hn : 6 * arrivals.length + 4 ≤ n) :
+    ∃ sF o, runAll (prog flow size cfg N scale) (fuel + 1) n (initState F cfg arrivals) = .returned .none sF ∧
+      sF.agenda = [] ∧ putsOf sF.trace = arrivalsFrom 0 arrivals ∧
+      orun flow size cfg oInit (histOf sF.trace) = some o ∧ drained o = true ∧
+      ∀ f, ofFlow f (outPk flow size (histOf sF.trace)) = ofFlow f (putPk flow size (histOf sF.trace)) := by
+  obtain ⟨sF, aF, h1, h2, h3, h4⟩ := run_returns3 fuel (initState F cfg arrivals) n _ _
+    (inv3_init (size := size) hc hg hw) (by rw [a0_mu]; omega) KReach.init
+  obtain ⟨o, g1, g2, g3, g4⟩ := inv3_final h2 h3
+  refine ⟨sF, o, h1, h3, g3, g1, g2, ?_⟩
+  intro f
+  have := (kernel_flow_fifo N scale F flow size cfg arrivals hc hg hw fuel sF h4 f).2
+  rw [absVC_eq h2.i.k h2.i.ai h2.i.l, g4] at this
+  simpa [ofFlow] using this.symm
 
 /-! ### concrete runs of the kernel model, evaluated by the kernel of Lean (exact arithmetic) -/
 
@@ -63,6 +367,38 @@ example : runVc [0, 0, 1, 1, 1] 80 [(0, 0), (1/4, 1), (1/4, 2), (0, 3), (1/4, 4)
     runVcT [0, 0, 1, 1, 1] 80 [(0, 0), (1/4, 1), (1/4, 2), (0, 3), (1/4, 4)] =
       some ([(0, 0), (2, 1), (3, 2), (1, 3), (4, 4)], [(0, 1), (2, 2), (3, 3), (1, 4), (4, 5)]) := by
   decide +kernel
+
+/-- the hypotheses of the theorems are met by that configuration and workload (`CfgOK`, `WorkOK`, `GridOK` with scale 2:
+vticks 1, 1/2 and gaps 0, 1 lie on the grid `ℤ/2`) -/
+example : CfgOK 2 vcfg ∧ GridOK 2 vcfg [(0, 0), (0, 1), (0, 2), (1, 3), (1, 4), (0, 5)] ∧
+    WorkOK 6 2 2 (flowOf [0, 0, 1, 1, 1, 0]) [(0, 0), (0, 1), (0, 2), (1, 3), (1, 4), (0, 5)] := by
+  have g0 : OnGrid 2 (0 : ℚ) := ⟨0, by norm_num⟩
+  have g1 : OnGrid 2 (1 : ℚ) := ⟨2, by norm_num⟩
+  have gh : OnGrid 2 (1 / 2 : ℚ) := ⟨1, by norm_num⟩
+  refine ⟨⟨by norm_num [vcfg], ?_, ?_, by decide, ?_⟩, ⟨by norm_num, ?_, ?_⟩, ⟨?_, by decide⟩⟩
+  · intro f hf
+    have : f = 0 ∨ f = 1 := by omega
+    rcases this with rfl | rfl
+    · exact ⟨1, rfl, by norm_num⟩
+    · exact ⟨1 / 2, rfl, by norm_num⟩
+  · intro kv hkv
+    simp only [vcfg, List.mem_cons, List.not_mem_nil, or_false] at hkv
+    rcases hkv with rfl | rfl <;> decide
+  · intro f hf
+    have : f = 0 ∨ f = 1 := by omega
+    rcases this with rfl | rfl <;> rfl
+  · intro kv hkv
+    simp only [vcfg, List.mem_cons, List.not_mem_nil, or_false] at hkv
+    rcases hkv with rfl | rfl
+    · exact g1
+    · exact gh
+  · intro x hx
+    simp only [List.mem_cons, List.not_mem_nil, or_false] at hx
+    rcases hx with rfl | rfl | rfl | rfl | rfl | rfl <;> first | exact g0 | exact g1
+  · intro x hx
+    simp only [List.mem_cons, List.not_mem_nil, or_false] at hx
+    rcases hx with rfl | rfl | rfl | rfl | rfl | rfl <;>
+      exact ⟨by norm_num, by decide, by decide, by decide, by first | exact g0 | exact g1⟩
 
 /-- the oracle is not vacuous.  Packet 0 (class 0) arrives at 0 and is served at once; 1 (class 0, stamp 2) and 2 (class 1,
 stamp 1) arrive at 1/2.  Serving 2 at 1 is accepted; serving 1 at 1 is rejected (2 has the smaller stamp); a wrong stamp is
